@@ -66,6 +66,11 @@ func (m *Monitor) Check(w *World, pre raft.VNode, op Op, post raft.VNode) *Bad {
 			return &Bad{"C01", fmt.Sprintf("a vote reply of the election of term %d (from node %d) was counted in the election of term %d", op.Elect, op.Src, pre.Term)}
 		}
 	}
+	// C16/C17: only a node that its leader told to time out now campaigns with the permission to disrupt a
+	// live leader (voteReq.transfer)
+	if pre.Role != "candidate" && post.Role == "candidate" && op.Kind != "timeoutNow" && post.CandTransfer {
+		return &Bad{"C16/C17", fmt.Sprintf("node starts an election by itself (%s) with the leader's transfer permission set: no leader designated it", op.Kind)}
+	}
 	// C06/C10: a follower that stored new entries flushes them before it acknowledges (what it acknowledged
 	// survives a crash)
 	if op.Kind == "append" && post.RpcReply != nil && post.RpcReply.Result == 1 && post.LastLogIndex > pre.LastLogIndex {
